@@ -889,6 +889,10 @@ class NNUnfold(OpDef):
             out.append(dict(base, N=1, C=2, via="F" if idx % 3 else "M"))
             if idx % 4 == 0:
                 out.append(dict(base, N=2, C=1, via="F"))
+            if idx % 5 == 0 and p != (0, 0):
+                out.append(dict(base, N=1, C=1, via="F" if idx % 2 else "M", padv=True))     # the value the padding is filled with
+            if idx % 6 == 0:
+                out.append(dict(base, N=1, C=1, via="Mpos"))
         return out
 
     def illegal_configs(self, tier):
@@ -897,8 +901,17 @@ class NNUnfold(OpDef):
     def inputs(self, args):
         return [Inp("x", (args["N"], args["C"], args["H"], args["W"]))]
 
+    def extra(self, args, env):
+        if args.get("padv"):
+            return {"padv": env.scalar("padv", lo=-3, hi=3, kind="data")}
+        return {}
+
     def forward(self, args, ts, extra):
         kw = dict(kernel_size=arg(args["k"]), dilation=arg(args["d"]), stride=arg(args["s"]), padding=arg(args["p"]))
+        if "padv" in extra:
+            kw["pad_value"] = extra["padv"]
+        if args["via"] == "Mpos":       # positional, in the order of the layer's own signature (kernel_size, stride, padding, dilation)
+            return NN().Unfold(arg(args["k"]), arg(args["s"]), arg(args["p"]), arg(args["d"]))(ts[0])
         if args["via"] == "M":
             return NN().Unfold(**kw)(ts[0])
         return NF().unfold(ts[0], **kw)
@@ -917,7 +930,7 @@ class NNUnfold(OpDef):
                 for i in range(lH):
                     for j in range(lW):
                         for q, v in enumerate(win2d(x, n, c, i, j, k, s, p, d)):
-                            o[n, c * k[0] * k[1] + q, i * lW + j] = 0 if v is PAD else v
+                            o[n, c * k[0] * k[1] + q, i * lW + j] = extra.get("padv", 0) if v is PAD else v
         return o
 
 
@@ -934,6 +947,8 @@ class NNFold(OpDef):
             out.append(dict(base, N=1, C=1, via="F" if idx % 3 else "M"))
             if idx % 4 == 0:
                 out.append(dict(base, N=2, C=2, via="F"))
+            if idx % 6 == 0:
+                out.append(dict(base, N=1, C=1, via="Mpos"))
         return out
 
     def _geom(self, args):
@@ -942,13 +957,22 @@ class NNFold(OpDef):
         lW = out_len(args["W"], k[1], s[1], p[1], d[1])
         return k, s, p, d, lH, lW
 
+    def illegal_configs(self, tier):
+        # a number of blocks that does not match the geometry, a channel extent that is no multiple of kH*kW, an output too small
+        g = {"H": 3, "W": 3, "k": 2, "s": 1, "p": 0, "d": 1, "N": 1, "C": 1, "via": "F"}
+        return [dict(g, yshape=[1, 4, 5]), dict(g, yshape=[1, 3, 4]), dict(g, H=1, W=1, yshape=[1, 4, 1])]
+
     def inputs(self, args):
+        if "yshape" in args:
+            return [Inp("y", tuple(args["yshape"]))]
         k, s, p, d, lH, lW = self._geom(args)
         return [Inp("y", (args["N"], args["C"] * k[0] * k[1], max(lH * lW, 1)))]
 
     def forward(self, args, ts, extra):
         kw = dict(output_size=(args["H"], args["W"]), kernel_size=arg(args["k"]), dilation=arg(args["d"]),
                   stride=arg(args["s"]), padding=arg(args["p"]))
+        if args["via"] == "Mpos":       # positional, in the order of the layer's own signature
+            return NN().Fold((args["H"], args["W"]), arg(args["k"]), arg(args["s"]), arg(args["p"]), arg(args["d"]))(ts[0])
         if args["via"] == "M":
             return NN().Fold(**kw)(ts[0])
         return NF().fold(ts[0], **kw)
